@@ -170,7 +170,7 @@ def case(chk, i):
     for line in so.splitlines():
         if line.startswith("PHASE "):
             cur = line.split()[1]
-        elif cur and not line.startswith(("SIG ", "CSIG ")):
+        elif cur and not line.startswith(("SIG ", "CSIG ", "ABI ")):
             phases[cur].append(line)
     obs["calls_compared"] = sum(1 for l in phases["direct"] if l.startswith("CALL "))
     obs["values_compared"] = len(phases["direct"])
@@ -204,6 +204,22 @@ DECLARATORS = [
     ("enumparam", "enum sd_e { SD_A, SD_B = 5 }; static inline enum sd_e sd_en(enum sd_e e) { return e; }", None),
     ("structret", "struct sd_s { double a; char b; }; static inline struct sd_s sd_sr(struct sd_s s) { s.b = 1; return s; }", None),
     ("valist", "static inline int sd_val(int n, __builtin_va_list ap) { return n; }", None),
+    ("fn-typedef", "typedef int sd_fn_t(int); static sd_fn_t sd_viatd; static inline int sd_user(int a) { return a; }", "c16.function-declared-through-typedef-panics"),
+    ("fn-typedef-def", "typedef int sd_fn2_t(int, char); static sd_fn2_t sd_viatd2; static int sd_viatd2(int a, char b) { return a + b; }",
+     "c16.function-declared-through-typedef-panics"),
+    ("noproto", "static inline int sd_noproto() { return 3; }", None),
+    ("restrict", "static inline int sd_restrict(int *restrict a, const char *restrict b) { return *a + *b; }", None),
+    ("volatile", "static inline int sd_vol(volatile int *p, const volatile long v) { return *p + (int)v; }", None),
+    ("boolret", "static inline _Bool sd_bool(_Bool a, unsigned char b) { return a && b; }", None),
+    ("longdouble", "static inline long double sd_ld(long double a, float b) { return a + b; }", None),
+    ("int128", "static inline __int128 sd_i128(unsigned __int128 a, __int128 b) { return (__int128)a + b; }", None),
+    ("complex", "static inline double _Complex sd_cx(float _Complex a) { return a; }", None),
+    ("union-param", "union sd_u { int i; float f; }; static inline union sd_u sd_un(union sd_u u, union sd_u *p) { return p ? *p : u; }", None),
+    ("anon-struct-typedef", "typedef struct { int a; } sd_anon_t; static inline sd_anon_t sd_at(sd_anon_t v, const sd_anon_t *p) { return v; }", None),
+    ("fnptr-typedef", "typedef int (*sd_cb_t)(int); static inline sd_cb_t sd_cbid(sd_cb_t f, sd_cb_t *pf) { return f; }", None),
+    ("ptrptr", "static inline char **sd_pp(char **a, const char *const *b, void ***c) { return a; }", None),
+    ("array-of-ptr", "static inline int sd_ap(int *a[3], const char *b[]) { return *a[0]; }", None),
+    ("enum-typedef", "typedef enum { SD_X, SD_Y } sd_te; static inline sd_te sd_tef(sd_te e, sd_te *p) { return e; }", None),
 ]
 
 
@@ -215,6 +231,12 @@ def declarator_case(chk, t):
     b = os.path.join(d, "b.rs")
     rc, so, se, _ = sh([build.BINDGEN, hdr, "--experimental", "--wrap-static-fns", "--wrap-static-fns-path", wrap, "-o", b], timeout=60)
     cname = "declarator-" + name
+    if rc != 0 and "panicked at" in se:
+        return Verdict(VIOLATED, cname, "bindgen panics instead of wrapping or skipping `%s`: %s" % (text, " ".join(se.split("panicked at", 1)[1].split()[:12])),
+                       files={"d.h": text}, signature=sig)
+    if rc != 0 and "serialization error" in se:
+        # a type the wrapper serialiser declares unsupported: an error value, neither a panic nor a dangling binding
+        return Verdict(HELD, cname, obs={"declarator_cases": 1, "serialisation_errors_reported": 1})
     if rc != 0:
         return Verdict(INCONCLUSIVE, cname, "bindgen failed " + se[-200:])
     files = {"d.h": text, "bindings.rs": open(b).read()}
